@@ -218,6 +218,16 @@ func c13Candidates(p c13Path) []any {
 		return []any{[]any{"a1"}, []any{"b1", "b2"}}
 	case "configopaque.String":
 		return []any{c13Secret}
+	case "[]otelconf.MetricReader":
+		// a list of structured entries that is LONGER than the factory default (one reader): every entry is exactly what
+		// was written, nothing of the default entry survives in it
+		rd := func(port int) any {
+			return map[string]any{"pull": map[string]any{"exporter": map[string]any{"prometheus": map[string]any{"host": "localhost", "port": port}}}}
+		}
+		pr := func() any {
+			return map[string]any{"periodic": map[string]any{"exporter": map[string]any{"console": map[string]any{}}}}
+		}
+		return []any{[]any{pr(), pr()}, []any{rd(8889), rd(8890)}}
 	case "otlphttpexporter.EncodingType":
 		return []any{"json", "proto"}
 	case "zapcore.Level", "zap.AtomicLevel":
@@ -389,6 +399,22 @@ func c13Written(c c13Comp, paths [][]string, vals []any) (string, string, bool) 
 				return "secret-not-redacted-in-effective-config", fmt.Sprintf("%s: wrote a secret into %s, the effective configuration handed to extensions has %s", desc, fp, got), true
 			}
 			continue
+		}
+		// a written list of structured entries: every entry holds what was written, and whatever else the effective entry
+		// shows is empty (null / false / 0 / "" / {} / [])
+		if wl, isList := vals[i].([]any); isList && len(wl) > 0 {
+			if _, isMap := wl[0].(map[string]any); isMap {
+				var gl []any
+				if err := json.Unmarshal([]byte(got), &gl); err != nil || len(gl) != len(wl) {
+					return "effective-value-differs-from-written", fmt.Sprintf("%s: wrote %s, effective configuration has %s", desc, want, got), true
+				}
+				for j := range wl {
+					if extra := c13Subset(wl[j], gl[j], fmt.Sprintf("[%d]", j)); extra != "" {
+						return "written-list-entry-holds-more-than-was-written", fmt.Sprintf("%s: wrote %s, effective configuration has %s: %s", desc, want, got, extra), true
+					}
+				}
+				continue
+			}
 		}
 		// typed leaves normalise their text form (e.g. verbosity detailed -> Detailed): compared case-insensitively
 		if !strings.EqualFold(c13NormVal(got), c13NormVal(string(want))) && c13NormVal(got) != "[REDACTED]" {
@@ -993,4 +1019,76 @@ func TestVerif(t *testing.T) {
 		ctx.R.Extra["uncovered_paths"] = strings.Join(uncovered, "; ")
 	}
 	ctx.R.States = ctx.R.Evals
+}
+
+
+// c13Subset: got holds everything of want (same values), and whatever else it holds is empty. Returns a description of the
+// first difference.
+func c13Subset(want, got any, path string) string {
+	empty := func(v any) bool {
+		switch x := v.(type) {
+		case nil:
+			return true
+		case bool:
+			return !x
+		case float64:
+			return x == 0
+		case string:
+			return x == ""
+		case []any:
+			return len(x) == 0
+		case map[string]any:
+			for _, e := range x {
+				if c13Subset(nil, e, "") != "" {
+					return false
+				}
+			}
+			return true
+		}
+		return false
+	}
+	if want == nil {
+		if !empty(got) {
+			b, _ := json.Marshal(got)
+			return fmt.Sprintf("%s = %s was not written", path, b)
+		}
+		return ""
+	}
+	switch w := want.(type) {
+	case map[string]any:
+		g, ok := got.(map[string]any)
+		if !ok {
+			return fmt.Sprintf("%s is not a map", path)
+		}
+		for k, wv := range w {
+			if d := c13Subset(wv, g[k], path+"::"+k); d != "" {
+				return d
+			}
+		}
+		for k, gv := range g {
+			if _, ok := w[k]; !ok {
+				if d := c13Subset(nil, gv, path+"::"+k); d != "" {
+					return d
+				}
+			}
+		}
+		return ""
+	case []any:
+		g, ok := got.([]any)
+		if !ok || len(g) != len(w) {
+			return fmt.Sprintf("%s differs in length", path)
+		}
+		for i := range w {
+			if d := c13Subset(w[i], g[i], fmt.Sprintf("%s[%d]", path, i)); d != "" {
+				return d
+			}
+		}
+		return ""
+	}
+	wb, _ := json.Marshal(want)
+	gb, _ := json.Marshal(got)
+	if c13NormVal(string(wb)) != c13NormVal(string(gb)) && !strings.EqualFold(c13NormVal(string(wb)), c13NormVal(string(gb))) {
+		return fmt.Sprintf("%s = %s, written %s", path, gb, wb)
+	}
+	return ""
 }
